@@ -368,3 +368,27 @@ def ctor_fields(call, fields):
         if kw.arg:
             out[kw.arg] = kw.value
     return out
+
+
+def returned_values(g, params=()):
+    """[(exit-predecessor node, label, [(value expression, defining node)])]: what each way of leaving the function hands back.  A returned
+    local name is replaced by the expressions of its reaching definitions (value None stands for an opaque one) with the node that made the
+    definition; a literal return / falling off the end is attributed to the leaving node itself."""
+    from .hsmsites import reaching_defs
+    rd, valmap = reaching_defs(g, params)
+    byid = {n.id: n for n in g.nodes}
+    out = []
+    for p, lab in g.pred[g.exit]:
+        if lab == 'return' and p.kind == 'stmt' and isinstance(p.ast, ast.Return):
+            v = p.ast.value
+            if v is None:
+                vals = [(ast.Constant(value=None), p)]
+            elif isinstance(v, ast.Name):
+                ds = rd[p].get(v.id, set())
+                vals = [((valmap.get(d), byid.get(d[0])) if d[0] != 'param' else (None, g.entry)) for d in ds] or [(None, p)]
+            else:
+                vals = [(v, p)]
+            out.append((p, lab, vals))
+        elif lab not in ('raise', 'exc'):
+            out.append((p, lab, [(ast.Constant(value=None), p)]))
+    return out
